@@ -10,12 +10,4 @@ import (
 
 func init() {
 	VerifSampleRandomScalar = func(rd io.Reader) (*secp256k1.Scalar, error) { return sampleRandomScalar(rd) }
-	VerifNewDrbgRFC6979 = func(x, e *secp256k1.Scalar) io.Reader { return newDrbgRFC6979(x, e) }
-	VerifVerifyPriv = func(d *PrivateKey, digest []byte, r, s *secp256k1.Scalar) error {
-		return verify(d, nil, digest, r, s)
-	}
-	VerifMaxResamples = func() int { return maxScalarResamples }
-	VerifMitigate = func(rd io.Reader, k *PrivateKey, e *secp256k1.Scalar) (io.Reader, error) {
-		return mitigateDebianAndSony(rd, domainSepECDSA, k, e)
-	}
 }
